@@ -51,6 +51,20 @@ type Context interface {
 	Done() <-chan struct{}
 }
 
+// RecursionLimiter is implemented by a Context which bounds the nesting of
+// Python frames, so that unbounded recursion raises RuntimeError instead of
+// exhausting the Go stack (which aborts the process).  The VM calls
+// EnterFrame before it runs a frame and LeaveFrame when the frame returns
+// or yields.
+type RecursionLimiter interface {
+	EnterFrame() error
+	LeaveFrame()
+}
+
+// MaxRecursionDepth is the number of nested Python frames a Context made by
+// NewContext allows (sys.getrecursionlimit() in CPython)
+var MaxRecursionDepth int32 = 1000
+
 // CompileOpts specifies options for high-level compilation.
 type CompileOpts struct {
 	UseSysPaths bool   // If set, sys.path will be used to resolve relative pathnames
